@@ -149,3 +149,168 @@ pub proof fn lemma_step_closed_off<T: Context>(o: Computation<T>, n: Computation
         assert(o.edge_ok(e));
     }
 }
+
+pub proof fn lemma_below_refl<T: Context>(a: Computation<T>)
+    requires merge_laws(a.fp_context),
+    ensures a.below(a),
+{
+    assert forall |k: NodeIndex| #[trigger] a.has(k) implies leq(a.fp_context, a.val(k), a.val(k)) by {
+        lemma_merge_idem(a.fp_context, a.val(k));
+    }
+}
+
+pub proof fn lemma_below_trans<T: Context>(a: Computation<T>, b: Computation<T>, d: Computation<T>)
+    requires merge_laws(a.fp_context), b.fp_context == a.fp_context, a.below(b), b.below(d),
+    ensures a.below(d),
+{
+    assert forall |k: NodeIndex| #[trigger] a.has(k) implies d.has(k) && leq(a.fp_context, a.val(k), d.val(k)) by {
+        assert(b.has(k));
+        lemma_leq_trans(a.fp_context, a.val(k), b.val(k), d.val(k));
+    }
+}
+
+/// two nodes with the same priority are the same node
+pub proof fn lemma_prio_injective<T: Context>(c: Computation<T>, a: NodeIndex, b: NodeIndex)
+    requires c.wf(), a.i < c.nn(), b.i < c.nn(), c.prio(a) == c.prio(b),
+    ensures a == b,
+{
+    assert(c.priority_to_node_list@[c.node_priority_list@[a.i as int] as int].i == a.i);
+    assert(c.priority_to_node_list@[c.node_priority_list@[b.i as int] as int].i == b.i);
+}
+
+/// `update_node(node)`: from its two edge-wise postconditions to the closed_off statement.
+pub proof fn lemma_updnode_closed_off<T: Context>(o: Computation<T>, n: Computation<T>, node: NodeIndex, s: Set<usize>)
+    requires
+        o.wf(), node.i < o.nn(),
+        n.same_frame(o),
+        o.worklist@.subset_of(n.worklist@),
+        (n.has(node) && !n.worklist@.contains(o.prio(node))) ==> n.closed_at(node),
+        forall |e: int| o.valid_edge(e) && #[trigger] o.edge_ok(e) && o.src(e) != node
+            && !n.worklist@.contains(o.prio(o.src(e))) ==> n.edge_ok(e),
+        o.closed_off((s + o.worklist@).insert(o.prio(node))),
+    ensures
+        n.closed_off(s + n.worklist@),
+{
+    lemma_closed_off_edges(o, (s + o.worklist@).insert(o.prio(node)));
+    assert forall |e: int| n.valid_edge(e) && !(s + n.worklist@).contains(n.prio(n.src(e))) implies #[trigger] n.edge_ok(e) by {
+        if n.src(e) == node {
+            if n.has(node) {
+                assert(n.closed_at(node));
+            }
+        } else {
+            if o.has(o.src(e)) {
+                if o.prio(o.src(e)) == o.prio(node) {
+                    lemma_prio_injective(o, o.src(e), node);
+                }
+                assert(!(s + o.worklist@).insert(o.prio(node)).contains(o.prio(o.src(e))));
+                assert(o.edge_ok(e));
+            } else {
+                assert(o.edge_ok(e));
+            }
+        }
+    }
+    lemma_closed_off_edges(n, s + n.worklist@);
+}
+
+/// ascending keys: keys[j].i >= j
+pub proof fn lemma_ascending_lower_bound(keys: Seq<NodeIndex>, j: int)
+    requires
+        forall |a: int, b: int| 0 <= a < b < keys.len() ==> (#[trigger] keys[a]).i < (#[trigger] keys[b]).i,
+        0 <= j < keys.len(),
+    ensures keys[j].i >= j,
+    decreases j,
+{
+    if j > 0 {
+        lemma_ascending_lower_bound(keys, j - 1);
+        assert(keys[j - 1].i < keys[j].i);
+    }
+}
+
+/// ascending keys that take every value 0..n: keys[k].i == k for k < n (in particular n <= len)
+pub proof fn lemma_ascending_cover(keys: Seq<NodeIndex>, n: nat, k: int)
+    requires
+        forall |a: int, b: int| 0 <= a < b < keys.len() ==> (#[trigger] keys[a]).i < (#[trigger] keys[b]).i,
+        forall |v: int| 0 <= v < n ==> #[trigger] takes_value(keys, v),
+        0 <= k < n,
+    ensures k < keys.len(), keys[k].i == k,
+    decreases k,
+{
+    assert(takes_value(keys, k));
+    let j1 = choose |j: int| 0 <= j < keys.len() && (#[trigger] keys[j]).i == k;
+    lemma_ascending_lower_bound(keys, j1);
+    if j1 < k {
+        lemma_ascending_cover(keys, n, j1);
+    }
+}
+
+/// For a permutation `nodes` of 0..n, the list computed by `from_node_priority_list` is its inverse.
+pub proof fn lemma_inverse_perm(nodes: Seq<NodeIndex>, keys: Seq<NodeIndex>, r: Seq<usize>, n: nat)
+    requires is_node_permutation(nodes, n), positions_in_key_order(nodes, keys, r),
+    ensures
+        r.len() == n,
+        forall |k: int| 0 <= k < n ==> (#[trigger] r[k]) < n && nodes[r[k] as int].i == k,
+        forall |i: int| 0 <= i < n ==> r[(#[trigger] nodes[i]).i as int] == i,
+{
+    // every value below n is taken by a key
+    assert forall |v: int| 0 <= v < n implies #[trigger] takes_value(keys, v) by {
+        assert(takes_value(nodes, v));
+        let i = choose |i: int| 0 <= i < nodes.len() && (#[trigger] nodes[i]).i == v;
+        let j = choose |j: int| 0 <= j < keys.len() && #[trigger] keys[j] == #[trigger] nodes[i];
+        assert(keys[j].i == v);
+    }
+    assert forall |k: int| 0 <= k < n implies k < keys.len() && (#[trigger] keys[k]).i == k by {
+        lemma_ascending_cover(keys, n, k);
+    }
+    // no more than n keys: each key is an entry of `nodes`, hence < n, and keys[j].i >= j
+    if keys.len() > n {
+        let j = keys.len() - 1;
+        lemma_ascending_lower_bound(keys, j);
+        assert(nodes[r[j] as int] == keys[j]);
+        assert(nodes[r[j] as int].i < n);
+    }
+    if n > 0 { assert(keys[n - 1].i == n - 1); }
+    assert(keys.len() == n);
+    assert forall |k: int| 0 <= k < n implies (#[trigger] r[k]) < n && nodes[r[k] as int].i == k by {
+        assert(keys[k].i == k);
+    }
+    assert forall |i: int| 0 <= i < n implies r[(#[trigger] nodes[i]).i as int] == i by {
+        let k = nodes[i].i as int;
+        assert(keys[k].i == k);
+        let i2 = r[k] as int;
+        assert(nodes[i2] == keys[k]);
+        if i2 != i {
+            if i2 < i { assert(nodes[i2].i != nodes[i].i); } else { assert(nodes[i].i != nodes[i2].i); }
+        }
+    }
+}
+
+pub proof fn lemma_steps_left_nonneg(steps: Seq<u64>, max: u64)
+    requires forall |i: int| 0 <= i < steps.len() ==> (#[trigger] steps[i]) <= max,
+    ensures steps_left(steps, max) >= 0,
+    decreases steps.len(),
+{
+    if steps.len() > 0 {
+        assert forall |i: int| 0 <= i < steps.drop_last().len() implies (#[trigger] steps.drop_last()[i]) <= max by {
+            assert(steps.drop_last()[i] == steps[i]);
+        }
+        lemma_steps_left_nonneg(steps.drop_last(), max);
+        assert(steps.last() == steps[steps.len() - 1]);
+    }
+}
+
+/// counting one more step for node i uses up one unit of the budget
+pub proof fn lemma_steps_left_update(steps: Seq<u64>, max: u64, i: int)
+    requires 0 <= i < steps.len(), steps[i] < u64::MAX,
+    ensures steps_left(steps.update(i, (steps[i] + 1) as u64), max) == steps_left(steps, max) - 1,
+    decreases steps.len(),
+{
+    let v = (steps[i] + 1) as u64;
+    let upd = steps.update(i, v);
+    if i == steps.len() - 1 {
+        assert(upd.drop_last() =~= steps.drop_last());
+    } else {
+        assert(upd.drop_last() =~= steps.drop_last().update(i, v));
+        assert(steps.drop_last()[i] == steps[i]);
+        lemma_steps_left_update(steps.drop_last(), max, i);
+    }
+}
